@@ -133,6 +133,11 @@ FOUR = {'FD': (0.0, 1.0), 'F1': (1.0, 2.75), 'F2': (2.75, 4.5), 'F3': (4.5, 6.25
         'F34': (4.5, 8.0), 'F14': (1.0, 8.0)}
 GCODS = [(b'EEE ', b'----', THREE), (b'E20 ', b'-4--', THREE), (b'E2E ', b'-2--', THREE), (b'E3E ', b'-3--', THREE), (b'E4E ', b'-4--', THREE),
          (b'EEB ', b'----', THREE), (b'BBB ', b'----', THREE), (b'E2E ', b'-1--', THREE), (b'E1E ', b'-4--', THREE), (b'LLLL', b'1111', FOUR)]
+# spellings seen on field tapes that the reader documents as equivalents (its "alternate" table; a GDEC whose last
+# character is a blank instead of '-'); all of them are three track films of the same geometry
+GCODS_ALT = [(b'EBE ', b'----', THREE), (b'EEE ', b'EEE-', THREE), (b'EEB ', b'EEE-', THREE), (b'EB0 ', b'----', THREE), (b'E40 ', b'-4--', THREE),
+             (b'EEE ', b'--- ', THREE), (b'E20 ', b'-4- ', THREE), (b'E2E ', b'-2- ', THREE)]
+NULLS = [-999.25, -999.25, -999.25, -9999.0, -32768.0, -999.0, 1e30, 0.0]
 DSCA = {b'D200': 200, b'D500': 500, b'DM  ': 1000, b'D20 ': 20, b'D40 ': 40, b'S5  ': 240, b'S2  ': 600}
 MODES = {b'SHIF': (-1, 1), b'GRAD': 'none', b'NB  ': 'none', b'WRAP': 'all', b'X10 ': 'all'}
 MARGIN_IN = 0.25
@@ -164,13 +169,30 @@ class CurveModel:
         return b[0] <= w <= b[1]
 
     def films(self, model):
-        d = self.dest.strip()
-        if d in (b'BOTH', b'ALL'):
-            return sorted(model.films)
-        return [f for f in sorted(model.films) if f.strip() == d]
+        return dest_films(self.dest, model.films)
 
     def track(self, film):
         return film.tracks[self.trac.strip().decode('ascii')]
+
+
+def dest_films(dest, films):
+    """Film identifiers a PRES destination names: a film identifier itself; BOTH when there are exactly two films; ALL;
+    otherwise each character that is a film identifier (destination '12' = films 1 and 2)."""
+    d = dest.strip()
+    ids = sorted(films)
+    exact = [f for f in ids if f.strip() == d]
+    if exact:
+        return exact
+    if d == b'BOTH' and len(ids) == 2:
+        return ids
+    if d == b'ALL':
+        return ids
+    out = []
+    for byte in d:
+        for f in ids:
+            if f.strip() == bytes([byte]) and f not in out:
+                out.append(f)
+    return sorted(out)
 
 
 class PlotModel:
@@ -270,12 +292,12 @@ def _rand_edges(rng, log):
 def random_plot_spec(rng, nframes=None):
     """Random FILM / PRES tables over random channels."""
     spec = {}
-    nfilm = rng.choice([1, 2, 2])
+    nfilm = rng.choice([1, 2, 2, 2, 3])
     films = []
     idents = rng.sample([b'1   ', b'2   ', b'A   ', b'D   ', b'E   '], nfilm)
     for i in range(nfilm):
-        g = rng.choice(GCODS)
-        films.append((idents[i], g, rng.choice([b'D200', b'D200', b'D500', b'DM  ', b'D40 ', b'S5  ', b'D20 '])))
+        g = rng.choice(GCODS) if rng.random() < 0.75 else rng.choice(GCODS_ALT)
+        films.append((idents[i], g, rng.choice([b'D200', b'D200', b'D500', b'DM  ', b'D40 ', b'S5  ', b'D20 ', b'S2  '])))
     spec['films'] = films
     nch = rng.randrange(1, 7)
     names = rng.sample([b'GR  ', b'SP  ', b'CALI', b'ILD ', b'ILM ', b'RHOB', b'NPHI', b'DT  ', b'TENS', b'X1  ', b'A<&B', b'C"\'D', b'Q>  '], nch)
@@ -295,6 +317,10 @@ def random_plot_spec(rng, nframes=None):
             mode = rng.choice([b'SHIF', b'SHIF', b'GRAD', b'NB  ', b'WRAP', b'WRAP', b'X10 '])
             lo, hi = _rand_edges(rng, mode == b'GRAD')
             dest = rng.choice([b'ALL ', b'BOTH' if nfilm == 2 else b'ALL ', films[rng.randrange(nfilm)][0]])
+            if nfilm >= 2 and rng.random() < 0.25:
+                # several films named one character each ('12', 'A1D'); rarely BOTH although there are three films (names none)
+                sub = rng.sample([f[0].strip() for f in films], rng.randrange(2, nfilm + 1))
+                dest = _fix(b''.join(sub), 4) if rng.random() < 0.9 or nfilm == 2 else b'BOTH'
             lo, hi = q68(lo), q68(hi)
             if lo == hi or (mode == b'GRAD' and (lo <= 0 or hi <= 0)):     # quantifier: left != right, both > 0 for log
                 lo, hi = (0.2, 2000.0) if mode == b'GRAD' else (q68(lo), q68(lo + max(abs(lo), 1.0)))
@@ -305,6 +331,7 @@ def random_plot_spec(rng, nframes=None):
     spec['x_units'] = rng.choice([b'FEET', b'FEET', b'M   ', b'.1IN'])
     spec['nframes'] = nframes or rng.choice([12, 40, 80, 150])
     spec['x0'] = rng.choice([1000.0, 9900.0, 120.5, 3000.0])
+    spec['null'] = rng.choice(NULLS)
     return spec
 
 
@@ -313,6 +340,7 @@ def lis_plot_file(rng, spec):
     m = PlotModel()
     m.up = spec['up']
     m.x_units = spec['x_units']
+    m.null = null = q68(spec.get('null', NULL))          # the absent value the data format specification declares
     n = spec['nframes']
     for ident, (gcod, gdec, layout), dsca in spec['films']:
         m.films[ident] = FilmModel(ident, gcod, gdec, layout, dsca)
@@ -332,7 +360,7 @@ def lis_plot_file(rng, spec):
     # PRES tables in the field lack some columns; the reader documents fall-backs for OUTP (the curve name names the channel),
     # FILT (0.5) and MODE (WRAP): a quarter of the files drop a non-empty subset of them from every row
     drop = set()
-    if spec['curves'] and rng.random() < 0.25:
+    if spec['curves'] and not spec.get('no_drop') and rng.random() < 0.25:
         drop = set(rng.sample([b'OUTP', b'FILT', b'MODE'], rng.randrange(1, 4)))
         if b'OUTP' in drop and len({c['outp'] for c in spec['curves']}) != len(spec['curves']):
             if rng.random() < 0.6:
@@ -356,7 +384,7 @@ def lis_plot_file(rng, spec):
             common = set(layouts[0])
             for lay in layouts[1:]:
                 common &= set(lay)
-            dests = [f for f in m.films.values() if c['dest'].strip() in (b'ALL', b'BOTH') or f.ident == c['dest']]
+            dests = [m.films[f] for f in dest_films(c['dest'], m.films)]
             names = sorted(set.intersection(*[set(f.tracks) for f in dests])) if dests else sorted(common)
             names = [t for t in names if t not in ('TD', 'FD')] or names
             if not names:
@@ -381,7 +409,7 @@ def lis_plot_file(rng, spec):
             vals = shape_values(rng, shape, n, lo, hi)
             ab = absent_runs(rng, n, shape == 'all-absent') if shape in ('absent-runs', 'all-absent') or rng.random() < 0.2 else set()
         vals = [q68(v) for v in vals]
-        vals = [NULL if i in ab else (v if v != NULL else q68(NULL + 1)) for i, v in enumerate(vals)]
+        vals = [null if i in ab else (v if v != null else q68(null + 1 if abs(null) < 1e6 else null / 2)) for i, v in enumerate(vals)]
         m.channels[nm] = vals
         m.shapes[nm] = shape
         m.absent[nm] = ab
@@ -398,7 +426,7 @@ def lis_plot_file(rng, spec):
     elif per >= n:
         per = max(1, (n + 1) // 2)       # at least two data records
     m.frames_per_record = per
-    lrs = [file_head_tail(128), table(b'FILM', rows_film), table(b'PRES', rows_pres), dfsr(chans, m.up, spacing, m.x_units)]
+    lrs = [file_head_tail(128), table(b'FILM', rows_film), table(b'PRES', rows_pres), dfsr(chans, m.up, spacing, m.x_units, absent=null)]
     lrs += data_records(frames, per)
     lrs.append(file_head_tail(129))
     return physical(lrs), m
@@ -433,22 +461,23 @@ def xml_format_spec(rng, names, nframes=None):
     return spec
 
 
-def las_plot_text(rng, names, nframes=40, shapes=None, step=0.5, up=False):
+def las_plot_text(rng, names, nframes=40, shapes=None, step=0.5, up=False, null=NULL):
     """LAS 2.0 text with the given curve names; returns (text, PlotModel)."""
     m = PlotModel()
     m.up = up
+    m.null = null
     m.x_units = b'FEET'
     x0 = 1000.0
     m.x = [x0 - step * i if up else x0 + step * i for i in range(nframes)]
     L = ['~Version Information', ' VERS.   2.0 : CWLS LOG ASCII STANDARD - VERSION 2.0', ' WRAP.   NO : One line per depth step',
          '~Well Information', ' STRT.FT  %.4f : START' % m.x[0], ' STOP.FT  %.4f : STOP' % m.x[-1], ' STEP.FT  %.4f : STEP' % (-step if up else step),
-         ' NULL.   -999.25 : NULL', ' COMP.   ACME : COMPANY', ' WELL.   W-1 : WELL', '~Curve Information', ' DEPT.FT   : depth']
+         ' NULL.   %s : NULL' % ('%.2f' % null if null != int(null) else '%d' % null), ' COMP.   ACME : COMPANY', ' WELL.   W-1 : WELL', '~Curve Information', ' DEPT.FT   : depth']
     for nm in names:
         L.append(' %s.%s   : curve %s' % (nm, rng.choice(['GAPI', 'MV', 'IN', 'OHMM', '']), nm))
         shape = (shapes or {}).get(nm) or rng.choice(['constant', 'sine', 'ramp', 'spiky', 'absent-runs'])
         vals = shape_values(rng, shape, nframes, 0.0, 150.0)
         ab = absent_runs(rng, nframes) if shape == 'absent-runs' else set()
-        vals = [NULL if i in ab else float('%.4f' % v) for i, v in enumerate(vals)]
+        vals = [null if i in ab else (float('%.4f' % v) if float('%.4f' % v) != null else null + 1.0) for i, v in enumerate(vals)]
         m.channels[nm] = vals
         m.shapes[nm] = shape
         m.absent[nm] = ab
